@@ -246,3 +246,27 @@ def replay_c19(prop, goit, j, steps, sbase):
 EXTRA["C19"] = extra_c19
 REPLAY["c19"] = replay_c19
 NO_GENERIC.add("C19")
+
+
+# ------------------------------------------------------------------ C15 / C16: crash points and injected failures
+def extra_c15(prop, goit, sbase, seed, tier, model_ok, stats):
+    import c15
+    c15.run(prop, goit, sbase, seed, tier, model_ok, stats)
+
+
+def replay_c15(prop, goit, j, steps, sbase):
+    """re-run one (scenario, index) trial"""
+    import c15
+    ex = j.get("extra") or {}
+    st = new_stats("")
+    shim = c15.build_shim(os.path.join(sbase, "shim-replay"))
+    import random as _r
+    c15.run_scenario(shim, sbase, ex.get("scenario", "replay"), steps[:-1], steps[-1], ex.get("mode", "crash"), st,
+                     _r.Random(0), False, True)
+    return [f["msg"] for f in st["oracle_failures"] if (f.get("extra") or {}).get("k") == ex.get("k")]
+
+
+EXTRA["C15"] = extra_c15
+EXTRA["C16"] = extra_c15
+REPLAY["c15"] = replay_c15
+NO_GENERIC.update({"C15", "C16"})
